@@ -29,7 +29,7 @@ RULE_REAL = (
     "tables, weights / rates / aggregation overridden from the query in a third / fourth / sixth of the cases, weight "
     "factors {default, 0, 1/2, 1} from configuration or query (3 and product aggregation: no claim for A*), forward "
     "and reverse; boundary families: two-route network whose distance- and time-optimal routes differ with every "
-    "override direction, a 'highway' network on which an estimate at the mean table speed is inadmissible, and a "
+    "override direction, per-edge surcharges on the first / last edge of the shorter route (forward and reverse), a 'highway' network on which an estimate at the mean table speed is inadmissible, and a "
     "chain of 20-60 short edges against one direct edge 0.05-0.5 % longer for EVERY (model distance unit, state feature "
     "unit) pair and speed-model unit mixes with miles on either side (a fifth of the random cases too). I vs M (bit-exact floats): cost of every edge traversed alone and weighted estimate of every "
     "vertex, and the cost of the route's last edge traversed from the states after 0, 10 and all hops of Dijkstra's "
@@ -115,7 +115,7 @@ def run(chk):
     chk.proofs(extra_targets=["Model/ObjectiveRun.vo", "Proofs/OptimalCheck.vo"])
     binp = vf.build_harness("c02")
     quick = chk.tier == "quick"
-    streams = [("opt", 420 if quick else 15000), ("real", 200 if quick else 6000)]
+    streams = [("opt", 420 if quick else 15000), ("real", 210 if quick else 6000)]
     if chk.replay:
         # a replay file names its stream in the case description
         try:
